@@ -7,7 +7,6 @@ def classify(case):
 
 SPEC = dict(
     prop="C30",
-    disabled="under construction",
     coq_targets=["props/C30.vo"],
     drivers=[
         dict(name="hist", kind="main", pkg="./zzverif/c30",
